@@ -15,24 +15,26 @@ CONSTANTS B,          \* internal buffer size (frames)
           Ns,         \* callback sizes
           Speeds,     \* speeds (units per frame)
           Targets,    \* clock times (units) for scheduled sounds / own-time speed changes
+          Delays,     \* delays (frames) of delayed speed changes
           MaxCmd, MaxCb, MaxRd, MaxSched,
           OwnTime     \* TRUE: allow speed changes scheduled on the clock's own time (known finding D11)
 
 VARIABLES cst, qt, ticking, speed,
           pSpeed, pTick, pReset, ownPend,   \* command slots; speed tweens waiting for the clock's own time
+          pDelay, tw,                       \* delay of the speed command in the slot; the delayed speed tween under way
           shT, shF, shTicking,              \* published words
           apc, acbN,                        \* audio: "idle" | "reset_mid" | "pub" | "pub_mid"; size of the running callback
           rpc, rT, spc,                     \* reader / stopper in the middle of their two-word access
           sched, firedNow,
           ncmd, cb, nrd, act, ev, mon, bad
 
-ivars == <<cst, qt, ticking, speed, pSpeed, pTick, pReset, ownPend, shT, shF, shTicking, apc, acbN, rpc, rT, spc,
+ivars == <<cst, qt, ticking, speed, pSpeed, pTick, pReset, ownPend, pDelay, tw, shT, shF, shTicking, apc, acbN, rpc, rT, spc,
            sched, firedNow, ncmd, cb, nrd>>
 vars == <<ivars, act, ev, mon, bad>>
 
 Init ==
   /\ cst = "NotStarted" /\ qt = 0 /\ ticking = FALSE /\ speed = CHOOSE s \in Speeds : \A x \in Speeds : s <= x
-  /\ pSpeed = -1 /\ pTick = "none" /\ pReset = FALSE /\ ownPend = <<>>
+  /\ pSpeed = -1 /\ pTick = "none" /\ pReset = FALSE /\ ownPend = <<>> /\ pDelay = 0 /\ tw = <<>>
   /\ shT = 0 /\ shF = 0 /\ shTicking = FALSE
   /\ apc = "idle" /\ acbN = 0 /\ rpc = "idle" /\ rT = 0 /\ spc = "idle"
   /\ sched = <<>> /\ firedNow = <<>>
@@ -47,10 +49,18 @@ CmdSimple(c, v) ==
   /\ ncmd < MaxCmd /\ spc = "idle" /\ apc = "idle" /\ rpc = "idle" /\ ncmd' = ncmd + 1    \* (commands racing with their read: C07)
   /\ act' = <<"Cmd", c, v, 0>>
   /\ ev' = [a |-> "cmd", c |-> c, v |-> v, w |-> 0]
-  /\ CASE c = "start" -> pTick' = "on" /\ UNCHANGED <<pSpeed, pReset, ownPend>>
-       [] c = "pause" -> pTick' = "off" /\ UNCHANGED <<pSpeed, pReset, ownPend>>
-       [] c = "speed" -> pSpeed' = v /\ UNCHANGED <<pTick, pReset, ownPend>>
-  /\ UNCHANGED <<cst, qt, ticking, speed, shT, shF, shTicking, apc, acbN, rpc, rT, spc, sched, firedNow, cb, nrd>>
+  /\ CASE c = "start" -> pTick' = "on" /\ UNCHANGED <<pSpeed, pReset, ownPend, pDelay>>
+       [] c = "pause" -> pTick' = "off" /\ UNCHANGED <<pSpeed, pReset, ownPend, pDelay>>
+       [] c = "speed" -> pSpeed' = v /\ pDelay' = 0 /\ UNCHANGED <<pTick, pReset, ownPend>>
+  /\ UNCHANGED <<cst, qt, ticking, speed, tw, shT, shF, shTicking, apc, acbN, rpc, rT, spc, sched, firedNow, cb, nrd>>
+
+\* set_speed with a zero-length tween that starts d frames of audio time from now (same command slot as "speed")
+CmdSpeedIn(v, d) ==
+  /\ ~OwnTime /\ ncmd < MaxCmd /\ spc = "idle" /\ apc = "idle" /\ rpc = "idle" /\ ncmd' = ncmd + 1
+  /\ act' = <<"Cmd", "speed_in", v, d>>
+  /\ ev' = [a |-> "cmd", c |-> "speed_in", v |-> v, w |-> d]
+  /\ pSpeed' = v /\ pDelay' = d
+  /\ UNCHANGED <<cst, qt, ticking, speed, pTick, pReset, ownPend, tw, shT, shF, shTicking, apc, acbN, rpc, rT, spc, sched, firedNow, cb, nrd>>
 
 \* set_speed with a tween that starts at this clock's own time w
 CmdSpeedAt(v, w) ==
@@ -58,7 +68,7 @@ CmdSpeedAt(v, w) ==
   /\ act' = <<"Cmd", "speed_at", v, w>>
   /\ ev' = [a |-> "cmd", c |-> "speed_at", v |-> v, w |-> w]
   /\ ownPend' = <<[v |-> v, w |-> w]>>
-  /\ UNCHANGED <<cst, qt, ticking, speed, pSpeed, pTick, pReset, shT, shF, shTicking, apc, acbN, rpc, rT, spc, sched, firedNow, cb, nrd>>
+  /\ UNCHANGED <<cst, qt, ticking, speed, pSpeed, pTick, pReset, pDelay, tw, shT, shF, shTicking, apc, acbN, rpc, rT, spc, sched, firedNow, cb, nrd>>
 
 \* ClockHandle::stop, first half: both commands and the ticks word
 StopA ==
@@ -67,35 +77,38 @@ StopA ==
   /\ ncmd < MaxCmd /\ spc = "idle" /\ apc = "idle" /\ rpc = "idle" /\ ncmd' = ncmd + 1
   /\ pTick' = "off" /\ pReset' = TRUE /\ shT' = 0 /\ shF' = 0 /\ spc' = "idle"
   /\ act' = <<"StopA">> /\ ev' = [a |-> "cmd", c |-> "stop", v |-> 0, w |-> 0]
-  /\ UNCHANGED <<cst, qt, ticking, speed, pSpeed, ownPend, shTicking, apc, acbN, rpc, rT, sched, firedNow, cb, nrd>>
+  /\ UNCHANGED <<cst, qt, ticking, speed, pSpeed, ownPend, pDelay, tw, shTicking, apc, acbN, rpc, rT, sched, firedNow, cb, nrd>>
 \* second half (after clk.stop.mid): the fraction word
 StopB ==
   /\ spc = "mid" /\ shF' = 0 /\ spc' = "idle"
   /\ act' = <<"StopB">> /\ ev' = [a |-> "tau"]
-  /\ UNCHANGED <<cst, qt, ticking, speed, pSpeed, pTick, pReset, ownPend, shT, shTicking, apc, acbN, rpc, rT, sched, firedNow, ncmd, cb, nrd>>
+  /\ UNCHANGED <<cst, qt, ticking, speed, pSpeed, pTick, pReset, ownPend, pDelay, tw, shT, shTicking, apc, acbN, rpc, rT, sched, firedNow, ncmd, cb, nrd>>
 
 Sched(id, w) ==
   /\ Len(sched) < MaxSched /\ id = Len(sched) + 1 /\ apc = "idle" /\ rpc = "idle"
   /\ sched' = Append(sched, [id |-> id, w |-> w, fired |-> FALSE])
   /\ act' = <<"Sched", id, w>> /\ ev' = [a |-> "sched", id |-> id, w |-> w]
-  /\ UNCHANGED <<cst, qt, ticking, speed, pSpeed, pTick, pReset, ownPend, shT, shF, shTicking, apc, acbN, rpc, rT, spc, firedNow, ncmd, cb, nrd>>
+  /\ UNCHANGED <<cst, qt, ticking, speed, pSpeed, pTick, pReset, ownPend, pDelay, tw, shT, shF, shTicking, apc, acbN, rpc, rT, spc, firedNow, ncmd, cb, nrd>>
 
 \* ClockHandle::time: ticks word, (clk.read.mid), fraction word
 RdA ==
   /\ nrd < MaxRd /\ rpc = "idle" /\ spc = "idle" /\ rpc' = "mid" /\ rT' = shT /\ nrd' = nrd + 1
   /\ act' = <<"RdA">> /\ ev' = [a |-> "tau"]
-  /\ UNCHANGED <<cst, qt, ticking, speed, pSpeed, pTick, pReset, ownPend, shT, shF, shTicking, apc, acbN, spc, sched, firedNow, ncmd, cb>>
+  /\ UNCHANGED <<cst, qt, ticking, speed, pSpeed, pTick, pReset, ownPend, pDelay, tw, shT, shF, shTicking, apc, acbN, spc, sched, firedNow, ncmd, cb>>
 RdB ==
   /\ rpc = "mid" /\ rpc' = "idle"
   /\ act' = <<"RdB">> /\ ev' = [a |-> "rd", t |-> rT * 4 + shF]
-  /\ UNCHANGED <<cst, qt, ticking, speed, pSpeed, pTick, pReset, ownPend, shT, shF, shTicking, apc, acbN, rT, spc, sched, firedNow, ncmd, cb, nrd>>
+  /\ UNCHANGED <<cst, qt, ticking, speed, pSpeed, pTick, pReset, ownPend, pDelay, tw, shT, shF, shTicking, apc, acbN, rT, spc, sched, firedNow, ncmd, cb, nrd>>
 
 \* ---------------------------------------------------------------- audio
 \* on_start_processing: read commands; a reset stores the ticks word at once
 ABegin(n) ==
   /\ apc = "idle" /\ spc = "idle" /\ cb < MaxCb /\ acbN' = n
   /\ act' = <<"ABegin", n>> /\ ev' = [a |-> "tau"]
-  /\ speed' = IF pSpeed # -1 THEN pSpeed ELSE speed
+  \* Parameter::set: an immediate zero-length tween is done at the first update (speed' = target); a delayed one counts down
+  /\ speed' = IF pSpeed # -1 /\ pDelay = 0 THEN pSpeed ELSE speed
+  /\ tw' = IF pSpeed = -1 THEN tw ELSE IF pDelay = 0 THEN <<>> ELSE <<[v |-> pSpeed, rem |-> pDelay]>>
+  /\ pDelay' = 0
   /\ ticking' = IF pTick = "on" THEN TRUE ELSE IF pTick = "off" THEN FALSE ELSE ticking
   /\ shTicking' = ticking'
   /\ pSpeed' = -1 /\ pTick' = "none" /\ pReset' = FALSE
@@ -109,36 +122,41 @@ APubTicks ==
   /\ apc \in {"reset_mid", "pub"} /\ apc' = "pub_mid"
   /\ shT' = qt \div 4
   /\ act' = <<"APubTicks">> /\ ev' = [a |-> "tau"]
-  /\ UNCHANGED <<cst, qt, ticking, speed, pSpeed, pTick, pReset, ownPend, shF, shTicking, acbN, rpc, rT, spc, sched, firedNow, ncmd, cb, nrd>>
+  /\ UNCHANGED <<cst, qt, ticking, speed, pSpeed, pTick, pReset, ownPend, pDelay, tw, shF, shTicking, acbN, rpc, rT, spc, sched, firedNow, ncmd, cb, nrd>>
 
 \* the fraction word, then all chunks of the callback (no shared writes in there)
-RECURSIVE Run(_, _, _, _, _, _)
-\* returns <<qt', cst', sched', fired>> after walking the chunks
-Run(chs, f, q, st, sc, fired) ==
-  IF chs = <<>> THEN <<q, st, sc, fired>>
+RECURSIVE Run(_, _, _, _, _, _, _, _)
+\* returns <<qt', cst', sched', fired, speed', tw'>> after walking the chunks
+Run(chs, f, q, st, sc, fired, sp0, tw0) ==
+  IF chs = <<>> THEN <<q, st, sc, fired, sp0, tw0>>
   ELSE LET len == Head(chs)
+           \* Clock::update begins with speed.update(dt) - whether or not the clock is ticking: a delayed tween whose time
+           \* has run out starts (and, being zero-length, ends) now; otherwise its remaining delay shrinks by the chunk
+           sp == IF tw0 # <<>> /\ tw0[1].rem = 0 THEN tw0[1].v ELSE sp0
+           tw1 == IF tw0 = <<>> \/ tw0[1].rem = 0 THEN <<>> ELSE <<[tw0[1] EXCEPT !.rem = IF @ > len THEN @ - len ELSE 0]>>
            st1 == IF ticking /\ st = "NotStarted" THEN "Started" ELSE st
-           q1 == IF ticking THEN q + speed * len ELSE q
+           q1 == IF ticking THEN q + sp * len ELSE q
            hit == {k \in 1..Len(sc) : ~sc[k].fired /\ ticking /\ q1 >= sc[k].w}
            sc1 == [k \in 1..Len(sc) |-> IF k \in hit THEN [sc[k] EXCEPT !.fired = TRUE] ELSE sc[k]]
            \* (a speed tween waiting for this clock's own time looks the clock up in an arena where it has been
            \*  swapped for a dummy that never ticks: it never starts - finding D11)
        IN Run(Tail(chs), f + len, q1, st1, sc1, fired \o [j \in 1..Cardinality(hit) |->
-                <<sc[CHOOSE k \in hit : Cardinality({h \in hit : h < k}) = j - 1].id, f>>])
+                <<sc[CHOOSE k \in hit : Cardinality({h \in hit : h < k}) = j - 1].id, f>>], sp, tw1)
 
 APubFracAndRun ==
   /\ apc = "pub_mid" /\ apc' = "idle" /\ cb' = cb + 1
   /\ shF' = qt % 4
-  /\ LET r == Run(Chunks(acbN, B), 0, qt, cst, sched, <<>>) IN
-     /\ qt' = r[1] /\ cst' = r[2] /\ sched' = r[3] /\ firedNow' = r[4]
+  /\ LET r == Run(Chunks(acbN, B), 0, qt, cst, sched, <<>>, speed, tw) IN
+     /\ qt' = r[1] /\ cst' = r[2] /\ sched' = r[3] /\ firedNow' = r[4] /\ speed' = r[5] /\ tw' = r[6]
      /\ ev' = [a |-> "cb", n |-> acbN, t |-> IF rpc = "mid" THEN -1 ELSE shT * 4 + (qt % 4),
                     ticking |-> IF rpc = "mid" THEN -1 ELSE IF shTicking THEN 1 ELSE 0, fired |-> r[4], panicked |-> FALSE]
   /\ act' = <<"ARun">>
-  /\ UNCHANGED <<ticking, speed, pSpeed, pTick, pReset, ownPend, shT, shTicking, acbN, rpc, rT, spc, ncmd, nrd>>
+  /\ UNCHANGED <<ticking, pSpeed, pTick, pReset, ownPend, pDelay, shT, shTicking, acbN, rpc, rT, spc, ncmd, nrd>>
 
 INext == \/ \E c \in {"start", "pause"} : CmdSimple(c, 0)
          \/ \E v \in Speeds : CmdSimple("speed", v)
          \/ \E v \in Speeds, w \in Targets : CmdSpeedAt(v, w)
+         \/ \E v \in Speeds, d \in Delays : CmdSpeedIn(v, d)
          \/ StopA \/ StopB \/ RdA \/ RdB
          \/ \E w \in Targets : Sched(Len(sched) + 1, w)
          \/ \E n \in Ns : ABegin(n)
@@ -163,5 +181,7 @@ PropertyHoldsSequential == bad = "" \/ KnownD11      \* (used when readers/stopp
 InternalTimeExact == (apc = "idle" /\ ~mon.ownUsed /\ ~mon.pendReset /\ bad = "") => qt = mon.ref
 W_Torn == ~KnownD10
 W_Own == ~KnownD11
+\* (witness: a delayed speed change whose delay ran out while the clock was not ticking)
+W_DelayRanOutWhileNotTicking == ~(tw # <<>> /\ tw[1].rem = 0 /\ ~ticking /\ apc = "idle")
 W_Fired == \A k \in 1..Len(sched) : ~sched[k].fired
 =============================================================================
